@@ -17,12 +17,12 @@ use serde_json::{json, Value};
 pub const SPEC: PropSpec = PropSpec {
     id: "C03",
     level: "exploration",
-    rule: "Cases = (input bytes over all 256 values, configuration, reader kind Reader/NsReader, source kind slice/buffered/async). Every read call and every payload accessor of every returned event (name, local_name, prefix, decompose, as_namespace_binding, attributes()/html_attributes() with checks on and off iterated past None, try_get_attribute, unescape, decode, CDATA escape variants, BytesDecl fields, BytesPI target/content/attributes, to_end, into_owned, Debug; NsReader resolve_*/prefixes) runs under catch_unwind; the monitor asserts: no panic, at most 2*len+3 calls before Eof, Eof after Eof and after a syntax error, buffer_position non-decreasing and <= len, error_position <= buffer_position when an error is returned, attribute iterators end within len+3 items and stay ended. Exhaustive: all byte strings of length <= 2 over all 256 values, length 3 over a 48-value class set, all strings up to length N over the 13 markup bytes, all sequences of <= k atoms; random: strings of length <= 64 over all bytes with markup boosted, grammar documents, mutants, truncations, corpus. Non-trivial = input contains '<'.",
+    rule: "Cases = (input bytes over all 256 values, configuration, reader kind Reader/NsReader, source kind slice/buffered/async). Every read call (read_event*, read_resolved_event*, and - in a separate mode - read_to_end / read_text after some Start events) and every payload accessor of every returned event (name, local_name, prefix, decompose, as_namespace_binding, attributes()/html_attributes() with checks on and off iterated past None, try_get_attribute, unescape, decode, CDATA escape variants, BytesDecl fields, BytesPI target/content/attributes, to_end, into_owned, Debug; NsReader resolve_*/prefixes) runs under catch_unwind; the monitor asserts: no panic, at most 2*len+3 calls before Eof, Eof after Eof and after a syntax error, buffer_position non-decreasing and <= len, error_position <= buffer_position when an error is returned, attribute iterators end within len+3 items and stay ended. Exhaustive: all byte strings of length <= 2 over all 256 values, length 3 over a 48-value class set, all strings up to length N over the 13 markup bytes, all sequences of <= k atoms; random: strings of length <= 64 over all bytes with markup boosted, grammar documents, mutants, truncations, corpus. Non-trivial = input contains '<'.",
     assumptions: &[
         "a panic anywhere inside the guarded region is attributed to quick-xml (the harness accessors themselves are panic-free by construction: no indexing, no unwrap on results)",
         "termination is checked as the logical bound on the number of calls, not by wall-clock time",
     ],
-    required: &["reader.slice", "reader.buffered", "reader.async", "nsreader.slice", "nsreader.buffered", "nsreader.async", "accessor_calls", "syntax_errors_then_eof", "illformed_errors_continued", "attr_items"],
+    required: &["reader.slice", "reader.buffered", "reader.async", "nsreader.slice", "nsreader.buffered", "nsreader.async", "accessor_calls", "syntax_errors_then_eof", "illformed_errors_continued", "attr_items", "skip_calls"],
     run,
     replay,
     thorough_layers: &[("plain", 100), ("asan", 20), ("valgrind", 1), ("miri", 1), ("fuzz", 60)],
@@ -40,6 +40,7 @@ pub struct Local {
     illformed_continued: u64,
     max_calls_ratio_pct: u64,
     events: u64,
+    skip_calls: u64,
 }
 
 /// The 48-value class representative set for exhaustive length-3 strings.
@@ -254,8 +255,61 @@ impl Inv {
     }
 }
 
+/// plain or namespace-aware slice reader behind one interface (for the skip-call mode)
+enum Either<'a> {
+    R(Reader<&'a [u8]>),
+    N(NsReader<&'a [u8]>),
+}
+impl<'a> Either<'a> {
+    fn read_event(&mut self) -> Result<Event<'a>, quick_xml::Error> {
+        match self {
+            Either::R(r) => r.read_event(),
+            Either::N(r) => r.read_event(),
+        }
+    }
+    fn read_to_end(&mut self, q: QName) -> Result<std::ops::Range<u64>, quick_xml::Error> {
+        match self {
+            Either::R(r) => r.read_to_end(q),
+            Either::N(r) => r.read_to_end(q),
+        }
+    }
+    fn read_text(&mut self, q: QName) -> Result<std::borrow::Cow<'a, str>, quick_xml::Error> {
+        match self {
+            Either::R(r) => r.read_text(q),
+            Either::N(r) => r.read_text(q),
+        }
+    }
+    fn config_mut(&mut self) -> &mut quick_xml::reader::Config {
+        match self {
+            Either::R(r) => r.config_mut(),
+            Either::N(r) => r.config_mut(),
+        }
+    }
+    fn config(&self) -> &quick_xml::reader::Config {
+        match self {
+            Either::R(r) => r.config(),
+            Either::N(r) => r.config(),
+        }
+    }
+    fn buffer_position(&self) -> u64 {
+        match self {
+            Either::R(r) => r.buffer_position(),
+            Either::N(r) => r.buffer_position(),
+        }
+    }
+    fn error_position(&self) -> u64 {
+        match self {
+            Either::R(r) => r.error_position(),
+            Either::N(r) => r.error_position(),
+        }
+    }
+}
+
 #[derive(Clone, Copy, Debug, PartialEq, Eq)]
 pub enum Mode {
+    /// like ReaderSlice, but after some Start events read_to_end / read_text is called as well
+    ReaderSliceSkips,
+    NsSliceSkips,
     ReaderSlice,
     ReaderBuffered,
     ReaderAsync,
@@ -266,6 +320,8 @@ pub enum Mode {
 impl Mode {
     fn name(self) -> &'static str {
         match self {
+            Mode::ReaderSliceSkips => "reader.slice_with_skips",
+            Mode::NsSliceSkips => "nsreader.slice_with_skips",
             Mode::ReaderSlice => "reader.slice",
             Mode::ReaderBuffered => "reader.buffered",
             Mode::ReaderAsync => "reader.async",
@@ -276,6 +332,8 @@ impl Mode {
     }
     fn from(s: &str) -> Mode {
         match s {
+            "reader.slice_with_skips" => Mode::ReaderSliceSkips,
+            "nsreader.slice_with_skips" => Mode::NsSliceSkips,
             "reader.buffered" => Mode::ReaderBuffered,
             "reader.async" => Mode::ReaderAsync,
             "nsreader.slice" => Mode::NsSlice,
@@ -353,6 +411,88 @@ pub fn drive(input: &[u8], cfg: u8, mode: Mode, cuts: &[usize], pending: &[u8], 
         }};
     }
     match mode {
+        Mode::ReaderSliceSkips | Mode::NsSliceSkips => {
+            // the skipping calls are read calls too: no panic, positions stay ordered, Eof stays final
+            let ns = mode == Mode::NsSliceSkips;
+            let mut r = if ns { Either::N(NsReader::from_reader(input)) } else { Either::R(Reader::from_reader(input)) };
+            apply_cfg(r.config_mut(), cfg);
+            let mut k = 0usize;
+            for _ in 0..limit {
+                let res = guarded(|| r.read_event());
+                let res = match res {
+                    Ok(r) => r,
+                    Err(p) => return Err(format!("read call {}: {}", inv.calls, p)),
+                };
+                let obs = result_obs(&res);
+                let start_name = match &res {
+                    Ok(Event::Start(e)) => Some(e.name().as_ref().to_vec()),
+                    _ => None,
+                };
+                drop(res);
+                if inv.step(&obs, r.buffer_position(), r.error_position(), loc)? {
+                    break;
+                }
+                if let Some(name) = start_name {
+                    k += 1;
+                    if (k + cfg as usize) % 3 == 0 {
+                        let use_text = k % 2 == 0;
+                        let cfg_before = cfg_bits(r.config());
+                        let pos_before = r.buffer_position();
+                        let sk = guarded(|| -> Result<Option<(u64, u64)>, quick_xml::Error> {
+                            let q = QName(&name);
+                            if use_text {
+                                r.read_text(q).map(|_| None)
+                            } else {
+                                r.read_to_end(q).map(|s| Some((s.start, s.end)))
+                            }
+                        });
+                        let sk = match sk {
+                            Ok(x) => x,
+                            Err(p) => return Err(format!("read_to_end/read_text({:?}) after call {}: {}", show(&name), inv.calls, p)),
+                        };
+                        loc.skip_calls += 1;
+                        if cfg_bits(r.config()) != cfg_before {
+                            return Err(format!("read_to_end/read_text({:?}) changed the configuration from {} to {}", show(&name), cfg_show(cfg_before), cfg_show(cfg_bits(r.config()))));
+                        }
+                        let pos = r.buffer_position();
+                        if pos < pos_before || pos > len as u64 {
+                            return Err(format!("position after read_to_end/read_text is {} (before {}, input length {})", pos, pos_before, len));
+                        }
+                        match sk {
+                            Ok(Some((s, e))) => {
+                                if s > e || e > pos || s < pos_before {
+                                    return Err(format!("read_to_end({:?}) returned the span {}..{} with the position going {} -> {}", show(&name), s, e, pos_before, pos));
+                                }
+                            }
+                            Ok(None) => {}
+                            Err(e) => {
+                                // any failure of a skip call leaves the reader finished or at least consistent:
+                                // model it as an error observation for the invariants
+                                let o = Obs::Err(err_obs(&e));
+                                let terminal = matches!(&o, Obs::Err(x) if x.is_syntax()) || matches!(&o, Obs::Err(ErrObs::MissingEndTag(_)));
+                                if r.error_position() > pos && !matches!(&o, Obs::Err(ErrObs::MissingEndTag(_))) {
+                                    return Err(format!("{} from a skip call reports error_position {} > buffer_position {}", o.show(), r.error_position(), pos));
+                                }
+                                if terminal {
+                                    // everything afterwards must be Eof
+                                    for _ in 0..3 {
+                                        let again = guarded(|| r.read_event().map(|e| e.into_owned()));
+                                        match again {
+                                            Ok(Ok(Event::Eof)) => {}
+                                            Ok(other) => return Err(format!("after {} from a skip call the reader returned {:?} instead of Eof", o.show(), other.map(|e| event_obs(&e).show()))),
+                                            Err(p) => return Err(p),
+                                        }
+                                    }
+                                    inv.terminal = true;
+                                    break;
+                                }
+                            }
+                        }
+                        inv.prev_pos = pos;
+                    }
+                }
+            }
+        }
         Mode::ReaderSlice => {
             let mut r = Reader::from_reader(input);
             body!(r, r.read_event(), false);
@@ -545,6 +685,12 @@ fn one_input(ctx: &mut Ctx, loc: &mut Local, input: &[u8], r: &mut Rng, heavy: b
     if !run_case(ctx, loc, input, cfg2, Mode::NsSlice, &[], &[]) {
         return false;
     }
+    if heavy || r.chance(1, 8) {
+        let m = if r.bool() { Mode::ReaderSliceSkips } else { Mode::NsSliceSkips };
+        if !run_case(ctx, loc, input, (r.next() & 0x7F) as u8, m, &[], &[]) {
+            return false;
+        }
+    }
     let pick = r.below(if heavy { 2 } else { 16 });
     if pick == 0 && input.len() > 1 {
         let c1 = cuts_for_piece(input.len(), 1, 0);
@@ -650,6 +796,7 @@ fn flush(ctx: &mut Ctx, loc: &Local) {
     ctx.add("attr_items", loc.attr_items);
     ctx.add("attr_errors", loc.attr_errors);
     ctx.add("events_exercised", loc.events);
+    ctx.add("skip_calls", loc.skip_calls);
     ctx.add("syntax_errors_then_eof", loc.syntax_then_eof);
     ctx.add("illformed_errors_continued", loc.illformed_continued);
     ctx.max("max.calls_per_100_input_bytes", loc.max_calls_ratio_pct);
